@@ -12,7 +12,7 @@ import logging
 import os.path
 import re
 from pathlib import Path
-from typing import List, Optional, Pattern, Tuple, Union
+from typing import List, Optional, Pattern, Tuple, Union, cast
 
 from .util import LithiumError
 
@@ -364,8 +364,15 @@ class TestcaseSymbol(Testcase):
 
     def __init__(self) -> None:
         super().__init__()
-        self._cutter: Optional[Pattern[bytes]] = None
-        self.set_cut_chars(self.DEFAULT_CUT_BEFORE, self.DEFAULT_CUT_AFTER)
+        # `load()` re-initializes the object: keep delimiters that were already set
+        if getattr(self, "_cutter", None) is None:
+            self._cutter: Optional[Pattern[bytes]] = None
+            self.set_cut_chars(self.DEFAULT_CUT_BEFORE, self.DEFAULT_CUT_AFTER)
+
+    def copy(self) -> "TestcaseSymbol":
+        new = cast("TestcaseSymbol", super().copy())
+        new._cutter = self._cutter  # pylint: disable=protected-access
+        return new
 
     def set_cut_chars(self, before: bytes, after: bytes) -> None:
         """Set the bytes used to delimit slice points.
